@@ -358,6 +358,13 @@ static void step_hook_tramp(int kind)
 	{
 		emit("K idle t=%lld", (long long)now_ns());
 	}
+	else if (kind == sim::verif::after_advance)
+	{
+		// the timers that expired have posted their completions, none has run yet
+		long k = ++w->adv_no;
+		std::string ctx = "a" + std::to_string(k);
+		if (w->scn.prog.count(ctx)) w->run_ctx(ctx);
+	}
 }
 
 void World::run_ctx(std::string const& ctx)
